@@ -30,7 +30,8 @@ for pid in PROPS:
             r['keys'].append(o['key'])
     for rid, r in rules.items():
         if rid.startswith(COUNT_ONLY):
-            r['min'] = max(1, int(r['min'] * 0.8)); r['keys'] = []
+            # per-function rules (purity): how many functions a module is split into is not part of the property
+            r['min'] = max(1, int(r['min'] * (0.3 if rid.endswith('.pure') else 0.8))); r['keys'] = []
     out[pid] = {'rules': rules}
 path = os.path.join(os.path.dirname(os.path.dirname(os.path.abspath(__file__))), 'baseline.json')
 json.dump(out, open(path, 'w'), indent=1, sort_keys=True)
